@@ -179,8 +179,8 @@ class Report:
             # lemmas: pure formulas over the contracts
             for name, hyps, goal in lemmas:
                 uid = 'lemma::%s' % name
-                meta[uid] = {'unit': None, 'base': uid, 'uid': uid, 'kind': 'lemma', 'note': '', 'path': []}
-                jobs.append((uid, verify.smt2_of(hyps, goal), [], tl, True))
+                meta[uid] = {'unit': None, 'base': uid, 'uid': uid, 'kind': 'lemma', 'note': '', 'path': [], 'smt2': verify.smt2_of(hyps, goal)}
+                jobs.append((uid, meta[uid]['smt2'], [], tl, True))
             t_explore = time.time() - t0
             results = {}
             for r in pool.imap_unordered(verify.solve_one, jobs, chunksize=1):
@@ -192,6 +192,25 @@ class Report:
                     bad.append(r['uid'])
             self.canaries = (len(canjobs), bad)
             t_can = time.time() - t0
+            # patience pass: on a busy machine a time-out says little.  An obligation of the committed baseline that timed out on every
+            # back end (no counter-model) is tried again with three times the budget when the load average shows the cores are contended.
+            self.patience = {'load': None, 'retried': 0, 'recovered': 0}
+            try:
+                load = os.getloadavg()[0]
+            except OSError:
+                load = 0.0
+            self.patience['load'] = round(load, 1)
+            base0 = self._baseline()
+            base_names0 = set(base0['discharged']) if base0 else set()
+            slow = [uid for uid, r in results.items() if r['status'] in ('unknown', 'timeout') and meta[uid]['base'] in base_names0]
+            if slow and load > 0.5 * (os.cpu_count() or 16):
+                self.patience['retried'] = len(slow)
+                for r in pool.imap_unordered(verify.solve_one, [(uid, meta[uid]['smt2'], meta[uid]['unit'].observables if meta[uid]['unit'] is not None else [], tl * 3, True) for uid in slow], chunksize=1):
+                    if r['status'] == 'unsat':
+                        r['backend'] = r['backend'] + ' (patience pass, load %.1f)' % load
+                        r['tries'] = (results[r['uid']].get('tries') or []) + (r.get('tries') or [])
+                        results[r['uid']] = r
+                        self.patience['recovered'] += 1
             # bounded model search for undecided obligations: fix the length scalars to small values
             retry = []
             for uid, r in results.items():
@@ -422,6 +441,7 @@ class Report:
             'canaries': {'path_conditions_probed': self.canaries[0], 'vacuous': self.canaries[1]},
             'lib_axioms_crosschecked': self.libcheck,
             'prove_wall_s': round(self.prove_wall, 1),
+            'patience_pass': getattr(self, 'patience', None),
             'explanation': ('All verification conditions generated on this run from the current source of the functions under contract were discharged.'
                             if proof_ok else 'Not every obligation was discharged on this run (see undecided / violations); the run is not counted as a proof.')
                            + ' The bounded stand-in below is labelled bounded and is never counted as proved.',
